@@ -375,6 +375,28 @@ def impl_search(ctx: Ctx, budget_s, scale, open_ids):
         stats["header_render"] += 1
         if c1 != c2 or m2.get("author") != m1["author"] or m2.get("provider") != m1["provider"] or not m2.get("environment"):
             report("provide_environment_augmented_plan: re-parsed plan has other commands / metadata", plan=plan)
+        # the renderer must keep the operations part as the grammar reads it: only "\n" ends a line for the grammar, while str.splitlines
+        # also cuts at \r \x0b \x0c \x1c-\x1e \x85 \u2028 \u2029 - inside a comment or a quoted name those are ordinary characters
+        exotic = ["\r", "\x0b", "\x0c", "\x1c", "\x1d", "\x1e", "\x85", "\u2028", "\u2029"]
+        rng.shuffle(exotic)
+        for ch in exotic[:(9 if scale > 1 else 4)]:
+            for body2 in ('x2 ELAPSE 10.0   # opener%sELAPSE 30000.0\nELAPSE 100.0' % ch, 'CAST "a%sb"\nELAPSE 5.0' % ch,
+                          'ELAPSE 1.0\n!debug "viewer(\'clock\')%s"\nELAPSE 2.0' % ch):
+                plan2 = "---\n" + yaml.safe_dump(meta, allow_unicode=True) + "\n---\n" + body2
+                try:
+                    _ma, ca = p.parse_simaple_runtime(plan2)
+                except Exception:
+                    continue        # the grammar does not accept this text: nothing to round-trip
+                stats["header_render"] += 1
+                for rname, rfn in (("provide_environment_augmented_plan", provide_environment_augmented_plan),):
+                    try:
+                        _mb, cb = p.parse_simaple_runtime(rfn(plan2))
+                        bad = None if cb == ca else "re-parsed plan has other commands: %r" % [getattr(c, "expr", getattr(c, "text", None)) for c in cb]
+                    except Exception as e:
+                        bad = "rendered plan does not parse: %s" % str(e).split("\n")[0][:120]
+                    if bad:
+                        report("%s: header + commands do not come back from the plan it renders" % rname, plan=plan2, observed=bad,
+                               expected=[getattr(c, "expr", getattr(c, "text", None)) for c in ca])
         # executing the re-parsed, re-rendered plan gives the same result
         rer = "---\n" + yaml.safe_dump(json.loads(json.dumps(m2)), allow_unicode=True) + "\n---\n" + \
               "\n".join(c.expr if hasattr(c, "expr") else '!debug "%s"' % c.text for c in c2)
